@@ -1115,7 +1115,10 @@ func (c *compiler) evalCallExpression(node *ast.CallExpression) (interface{}, er
 		}
 	}
 
-	res := rv.Call(args)
+	res, err := safeCall(rv, args)
+	if err != nil {
+		return nil, fmt.Errorf("could not call %s function: %w", node.Function, err)
+	}
 	if len(res) > 0 {
 		if e, ok := res[len(res)-1].Interface().(error); ok && !isNilPointer(e) {
 			return nil, fmt.Errorf("could not call %s function: %w", node.Function, e)
@@ -1127,6 +1130,23 @@ func (c *compiler) evalCallExpression(node *ast.CallExpression) (interface{}, er
 	}
 
 	return nil, nil
+}
+
+// safeCall calls fn. A panic of the called Go function - a method promoted
+// from a nil embedded pointer, a callee that does not expect the zero value
+// filled in for an argument left out - is the failure of that call, not of
+// the program (package text/template treats the functions it calls alike).
+func safeCall(fn reflect.Value, args []reflect.Value) (res []reflect.Value, err error) {
+	defer func() {
+		if r := recover(); r != nil {
+			if e, ok := r.(error); ok {
+				err = fmt.Errorf("panic: %w", e)
+			} else {
+				err = fmt.Errorf("panic: %v", r)
+			}
+		}
+	}()
+	return fn.Call(args), nil
 }
 
 // isNilPointer reports whether the error is a nil pointer of a concrete
